@@ -15,9 +15,6 @@ package openapi
 //@   ensures* last.generate.flag: result == mustGen(meta)
 //@   modifies nothing
 
-//@ iface goa.design/goa/v3/expr.DataType.Kind
-//@   params t
-
 // The JSON-schema keywords mirror the design's validation keyword for keyword (same numbers, same sense),
 // and a length bound lands on the keyword that applies to the kind of value: minLength/maxLength for
 // strings, minItems/maxItems for arrays. (JSON Schema ignores minLength on arrays and objects.)
